@@ -52,7 +52,7 @@ pub fn run(ctx: &mut Ctx) -> (&'static str, String, bool) {
                         for seg in [0usize, 1, 7] {
                             p.evaluations += 1;
                             p.distinct(&(v, compressed, pos, verify, which.name(), seg));
-                            let case = ReadCase { compressed, stream: stream.clone(), read_plan: vec![], default_read: seg, write_plan: vec![], verify_version: verify, label: format!("ver{v}-pos{pos}-verify{verify}-seg{seg}") };
+                            let case = ReadCase { compressed, stream: stream.clone(), read_plan: vec![], default_read: seg, write_plan: vec![], verify_version: verify, flush: 0, label: format!("ver{v}-pos{pos}-verify{verify}-seg{seg}") };
                             let o = run_read_case(which, &case);
                             let (mut expect, _) = expected_results(&stream, compressed);
                             if verify && v != 9 {
@@ -160,7 +160,7 @@ pub fn run(ctx: &mut Ctx) -> (&'static str, String, bool) {
                     for which in IMPLS {
                         p.evaluations += 1;
                         p.distinct(&("multi", v, compressed, hi, verify, which.name()));
-                        let case = ReadCase { compressed, stream: stream.clone(), read_plan: vec![], default_read: if hi == 1 { 3 } else { 0 }, write_plan: vec![], verify_version: verify, label: format!("multi-ver{v}-h{hi}-verify{verify}") };
+                        let case = ReadCase { compressed, stream: stream.clone(), read_plan: vec![], default_read: if hi == 1 { 3 } else { 0 }, write_plan: vec![], verify_version: verify, flush: 0, label: format!("multi-ver{v}-h{hi}-verify{verify}") };
                         let o = run_read_case(which, &case);
                         let (mut expect, _) = expected_results(&stream, compressed);
                         if verify {
@@ -216,7 +216,7 @@ pub fn run(ctx: &mut Ctx) -> (&'static str, String, bool) {
                     for which in IMPLS {
                         p.evaluations += 1;
                         p.distinct(&(&lay.name, compressed, i, verify, which.name()));
-                        let case = ReadCase { compressed, stream: stream.clone(), read_plan: vec![], default_read: 0, write_plan: vec![], verify_version: verify, label: format!("kind-{}-{i}-verify{verify}", lay.name) };
+                        let case = ReadCase { compressed, stream: stream.clone(), read_plan: vec![], default_read: 0, write_plan: vec![], verify_version: verify, flush: 0, label: format!("kind-{}-{i}-verify{verify}", lay.name) };
                         let o = run_read_case(which, &case);
                         if o.results != expect {
                             p.violation(
@@ -230,11 +230,132 @@ pub fn run(ctx: &mut Ctx) -> (&'static str, String, bool) {
             }
         }
     }
+    // ---- the flag as the builder passes it on: connections made by Builder over loopback sockets -------------
+    if ctx.stage.as_deref() != Some("miri") {
+        let mut errs = vec![];
+        for asynchronous in [false, true] {
+            for udp in [false, true] {
+                for verify in [None, Some(true), Some(false)] {
+                    for nodelay in [None, Some(true), Some(false)] {
+                        for compressed in MODES {
+                            if let Err(e) = builder_session(asynchronous, udp, verify, nodelay, compressed, &mut p) {
+                                errs.push(e);
+                            }
+                        }
+                    }
+                }
+            }
+        }
+        if !errs.is_empty() {
+            ctx.inconclusive(format!("{} builder session(s) could not be judged (socket setup / watchdog): {}", errs.len(), errs[0]));
+        }
+    }
     ctx.merge(p);
     ctx.assume("VER frames are built by hand from the fixed 20-byte layout (InSimVer at offset 18)");
     (
         "exploration",
-        "all 256 InSimVer values x {verification on, off} x {blocking, tokio} x position {first, middle, last} x 3 read segmentations x both modes (exhaustive); every non-VER kind (incl. ISI with its own version byte != 9) around a valid VER in both settings; distinct = distinct configurations".into(),
+        "all 256 InSimVer values x {verification on, off} x {blocking, tokio} x position {first, middle, last} x 3 read segmentations x both modes (exhaustive); every non-VER kind (incl. ISI with its own version byte != 9) around a valid VER in both settings; connections made through Builder::connect_blocking / connect_async over loopback TCP and UDP for verify_version {unset, on, off} x tcp_nodelay {unset, on, off} x both modes, the peer sending VER 8 / 9 / 10 between other packets; distinct = distinct configurations".into(),
         true,
     )
+}
+
+
+/// A connection made by the builder (which hands its `verify_version` setting to the connection) reads
+/// VER 8, ping, VER 9, VER 10, ping from a loopback peer.
+fn builder_session(asynchronous: bool, udp: bool, verify: Option<bool>, nodelay: Option<bool>, compressed: bool, p: &mut Part) -> Result<(), String> {
+    use std::{
+        io::{Read, Write},
+        net::{TcpListener, UdpSocket},
+        time::Duration,
+    };
+
+    use insim::{builder::Builder, net::Mode};
+
+    use crate::transport::classify;
+    let label = format!("builder-{}-{}-verify{:?}-nodelay{:?}-{}", if asynchronous { "async" } else { "blocking" }, if udp { "udp" } else { "tcp" }, verify, nodelay, mode_name(compressed));
+    let ping = vec![if compressed { 1 } else { 4 }, 3, 5, 3];
+    let frames: Vec<Vec<u8>> = vec![ver_frame(compressed, 1, 8), ping.clone(), ver_frame(compressed, 1, 9), ver_frame(compressed, 2, 10), ping.clone()];
+    let stream: Vec<u8> = frames.concat();
+    let effective = verify.unwrap_or(true); // documented default: verification on
+    let (mut expect, _) = expected_results(&stream, compressed);
+    if effective {
+        expect[0] = ReadResult::IncompatibleVersion(8);
+        expect[3] = ReadResult::IncompatibleVersion(10);
+    }
+    let listener = TcpListener::bind("127.0.0.1:0").map_err(|e| e.to_string())?;
+    let peer_udp = UdpSocket::bind("127.0.0.1:0").map_err(|e| e.to_string())?;
+    let remote = if udp { peer_udp.local_addr() } else { listener.local_addr() }.map_err(|e| e.to_string())?;
+    let isi_len = 44; // IS_ISI is 44 bytes in both size modes
+    let frames2 = frames.clone();
+    let server = std::thread::spawn(move || -> Result<(), String> {
+        if udp {
+            peer_udp.set_read_timeout(Some(Duration::from_secs(20))).map_err(|e| e.to_string())?;
+            let mut b = [0u8; 2048];
+            let (_, from) = peer_udp.recv_from(&mut b).map_err(|e| format!("no ISI datagram: {e}"))?;
+            for f in &frames2 {
+                let _ = peer_udp.send_to(f, from).map_err(|e| e.to_string())?;
+            }
+            Ok(())
+        } else {
+            let (mut s, _) = listener.accept().map_err(|e| e.to_string())?;
+            s.set_read_timeout(Some(Duration::from_secs(20))).map_err(|e| e.to_string())?;
+            let mut isi = vec![0u8; isi_len];
+            s.read_exact(&mut isi).map_err(|e| format!("no ISI: {e}"))?;
+            for f in &frames2 {
+                s.write_all(f).map_err(|e| e.to_string())?;
+            }
+            Ok(())
+        }
+    });
+    let mut b = Builder::new().connect_timeout(Duration::from_secs(10));
+    b = if udp { b.udp(remote, None) } else { b.tcp(remote) };
+    b = b.mode(if compressed { Mode::Compressed } else { Mode::Uncompressed });
+    if let Some(v) = verify {
+        b = b.verify_version(v);
+    }
+    if let Some(n) = nodelay {
+        b = b.tcp_nodelay(n);
+    }
+    let n = expect.len();
+    let results: Vec<ReadResult> = if asynchronous {
+        let rt = tokio::runtime::Builder::new_current_thread().enable_all().build().map_err(|e| e.to_string())?;
+        rt.block_on(async {
+            let mut f = b.connect_async().await.map_err(|e| format!("{label}: connect_async: {e}"))?;
+            let mut out = vec![];
+            for _ in 0..n {
+                match tokio::time::timeout(Duration::from_secs(20), f.read()).await {
+                    Ok(r) => out.push(classify(r)),
+                    Err(_) => return Err(format!("{label}: read watchdog after {} results", out.len())),
+                }
+            }
+            Ok::<_, String>(out)
+        })?
+    } else {
+        let mut f = b.connect_blocking().map_err(|e| format!("{label}: connect_blocking: {e}"))?;
+        let mut out = vec![];
+        let t0 = std::time::Instant::now();
+        while out.len() < n {
+            if t0.elapsed() > Duration::from_secs(30) {
+                return Err(format!("{label}: read watchdog after {} results", out.len()));
+            }
+            match classify(f.read()) {
+                ReadResult::Io(k) if k == std::io::ErrorKind::WouldBlock || k == std::io::ErrorKind::TimedOut => continue,
+                r => out.push(r),
+            }
+        }
+        out
+    };
+    server.join().map_err(|_| format!("{label}: peer thread panicked"))??;
+    p.evaluations += 1;
+    p.distinct(&label);
+    if results != expect {
+        let at = results.iter().zip(expect.iter()).position(|(a, b)| a != b).unwrap_or(results.len().min(expect.len()));
+        let what = if effective { "builder-verification-on-not-applied" } else { "builder-verification-off-not-honoured" };
+        p.violation(
+            format!("C09/{}/{what}", if asynchronous { "tokio" } else { "blocking" }),
+            format!("{label}: result #{at} is {} expected {}", results.get(at).map(short).unwrap_or_else(|| "<none>".into()), expect.get(at).map(short).unwrap_or_else(|| "<none>".into())),
+            json!({"label": label, "verify_version": format!("{:?}", verify), "tcp_nodelay": format!("{:?}", nodelay), "stream": hex(&stream)}),
+        );
+    }
+    Ok(())
 }
